@@ -33,6 +33,10 @@ def gen_cases(tier, seed):
     yield from stream.gen_cases(tier, seed, PLAN[tier]["grammars"], profiles=("general",), with_search=False, expansion_share=0.3)
     for k in range(4):
         yield {"kind": "shared-context", "desc": {"name": "py_context", "python": "context", "abstracts": [], "prods": [], "start": "Program", "expansion": k % 2 == 1}, "repr": "tree", "decider": "maxdepth", "extra_depth": 2, "seed": seed * 31 + k, "nops": 0, "search": None, "retype": False}
+    rng3 = pyrandom.Random(f"c11-composite-{seed}")  # (own stream: every other case keeps its seed)
+    for k in range(15 if tier == "quick" else 600):
+        rk = ["stack", "tree", "ge", "stack", "sge"][k % 5]
+        yield {"desc": dict(T_COMPOSITE_MEMBERS, expansion=(k % 7 == 3)), "repr": rk, "decider": "own" if rk == "stack" else "maxdepth", "extra_depth": rng3.choice([1, 2, 3]), "seed": rng3.randrange(10**6), "nops": 10, "search": None, "retype": False}
     # expansion depthing on layered hierarchies, entered at every level and with the classes listed in several orders
     # (the per-rule expansion counts are derived from registration order)
     rng = pyrandom.Random(f"c11-layers-{seed}")
@@ -45,6 +49,21 @@ def gen_cases(tier, seed):
                 if rk == "dsge":
                     dk = "own"
                 yield {"desc": d, "repr": rk, "decider": dk, "extra_depth": rng.choice([1, 2, 3]), "seed": rng.randrange(10**6), "nops": rng.randint(6, 14), "search": None, "retype": False, "layered": True}
+
+
+T_COMPOSITE_MEMBERS = {  # refined values BELOW a field: a refined list as a tuple member, as a union member, as a list element
+    # (s4-C11: the stack mapper left such a list unlabelled; the random family had offered the shape in ONE grammar of seed 0,
+    # which a new shared fixture shifted away - the seed regression noticed)
+    "name": "t_composite_members",
+    "abstracts": [{"name": "E", "parent": None, "style": "abc"}],
+    "prods": [
+        {"name": "Lit", "parent": "E", "fields": [["v", ["ann", ["int"], ["IntRange", 0, 5]]]]},
+        {"name": "Pairing", "parent": "E", "fields": [["p", ["tuple", ["ann", ["list", ["ref", "E"]], ["ListSizeBetween", 1, 2]], ["bool"]]]]},
+        {"name": "Pairing2", "parent": "E", "fields": [["p", ["tuple", ["ann", ["int"], ["IntRange", 0, 3]], ["ann", ["list", ["ann", ["int"], ["IntRange", 0, 9]]], ["LSBWLO", 1, 3]]]]]},
+        {"name": "Rows", "parent": "E", "fields": [["rows", ["list", ["ann", ["list", ["ref", "Lit"]], ["ListSizeBetween", 1, 2]]]]]},
+    ],
+    "start": "E",
+}
 
 
 def observed(n, model):
